@@ -8,7 +8,7 @@
    ([shuffles_ok sh]); all theorems hold for every such iteration order. *)
 From Verif Require Import Base.Prelude Peering.Model Peering.Lemmas Peering.Verbs Peering.Frame Peering.Prune
      Peering.Export Peering.Phase1 Peering.Snapshot Peering.MirrorTop Peering.SamePeer
-     Peering.Refute Peering.Proofs Run.C17 Peering.Order.
+     Peering.Keep Peering.Refute Peering.Proofs Run.C17 Peering.Order.
 Local Open Scope string_scope.
 
 (* ================================================================== frame *)
@@ -26,16 +26,11 @@ Theorem C17_frame_history : forall q c es c',
   run c es c' -> Forall (fun e => ev_peer e <> q) es -> same_rows q c c'.
 Proof. exact run_frame. Qed.
 
-(* every Backend call (CatalogRegister / CatalogDeregister) carries the peer name ... *)
+(* every Backend call (CatalogRegister / CatalogDeregister) carries the peer name (and every
+   primary key of the three tables starts with the peer: node_key, svc_key, chk_key) ... *)
 Theorem C17_ops_carry_peer : forall sh c e,
   shuffles_ok sh -> Forall (fun o => op_peer o = ev_peer e) (h_ops (handle sh c e)).
 Proof. exact handle_ops_peer. Qed.
-
-(* ... every primary key of the three catalog tables starts with it ... *)
-Theorem C17_keys_contain_peer :
-  (forall x, fst (fst (node_key x)) = n_peer x) /\ (forall x, fst (fst (svc_key x)) = s_peer x)
-  /\ (forall x, fst (fst (chk_key x)) = c_peer x).
-Proof. exact keys_contain_peer. Qed.
 
 (* ... and the list of calls determines the resulting store (an error leaves the store alone) *)
 Theorem C17_calls_determine_store : forall sh c e,
@@ -59,6 +54,44 @@ Theorem C17_prune : forall sh, shuffles_ok sh -> forall p names c,
   (forall x, In x (svcs (h_cat (handle_exported_list sh c p names))) -> s_peer x = p ->
              In (s_name x) (exported_set names)).
 Proof. exact handle_exported_list_prune. Qed.
+
+(* ... and it removes nothing else: an instance of the peer whose service name is still exported
+   (or is the sidecar of an exported name) is kept, with the node row under it and its own
+   checks (unique keys and non-empty stored identifiers: state invariants, see below) *)
+Theorem C17_prune_keeps : forall sh p names, shuffles_ok sh -> forall c z,
+  h_err (handle_exported_list sh c p names) = None ->
+  wf c -> ids_nonempty c p ->
+  In z (svcs c) -> s_peer z = p -> In (s_name z) (exported_set names) ->
+  In z (svcs (h_cat (handle_exported_list sh c p names))) /\
+  (forall b, In b (nodes c) -> n_peer b = p -> n_name b = s_node z ->
+             In b (nodes (h_cat (handle_exported_list sh c p names)))) /\
+  (forall k, In k (chks c) -> c_peer k = p -> c_node k = s_node z -> c_sid k = s_id z ->
+             In k (chks (h_cat (handle_exported_list sh c p names)))).
+Proof. exact exported_list_keeps. Qed.
+
+(* ================================================================== nodes left without services *)
+
+(* After an update that returned no error, a node on which the service had an instance and
+   which the snapshot no longer contains is gone, unless a service of the peer is still
+   registered on it (for any snapshot, coherent or not). *)
+Theorem C17_orphan_nodes_removed : forall sh p sn c0 export,
+  shuffles_ok sh ->
+  h_err (handle_update_service sh c0 p sn (Some export)) = None ->
+  forall z, In z (svcs c0) -> s_peer z = p -> s_name z = sn ->
+            find_ns (new_health_snapshot p export) (s_node z) = None ->
+            get_node (h_cat (handle_update_service sh c0 p sn (Some export))) p (s_node z) = None \/
+            node_has_services (h_cat (handle_update_service sh c0 p sn (Some export))) p (s_node z) = true.
+Proof. exact orphan_nodes_removed. Qed.
+
+(* ================================================================== invariant over histories *)
+
+(* Unique primary keys (the hypothesis [wf] of the theorems below) survive every event and
+   every history, whatever the events contain and whether or not a handler fails. *)
+Theorem C17_unique_keys_invariant : forall sh c e, shuffles_ok sh -> wf c -> wf (h_cat (handle sh c e)).
+Proof. exact handle_wf. Qed.
+
+Theorem C17_unique_keys_history : forall c es c', run c es c' -> wf c -> wf c'.
+Proof. exact run_wf. Qed.
 
 (* ================================================================== mirror *)
 
@@ -184,6 +217,33 @@ Example C17_hypotheses_satisfiable :
   h_err (handle_update_service id_shuffles ex_before pa "web" (Some ex_export)) = None.
 Proof. exact ex_hypotheses. Qed.
 
+(* ... with a retained node ID and a retained check id (the hypotheses are not met by absence) *)
+Example C17_hypotheses_satisfiable_with_ids :
+  wf ex2_before /\ snap_coh pa "web" ex2_snap /\ ids_keep_names ex2_before pa ex2_snap /\
+  check_ids_keep_owner ex2_before pa ex2_snap /\ slots_owned ex2_before pa "web" ex2_snap /\
+  ids_nonempty ex2_before pa /\
+  h_err (handle_update_service id_shuffles ex2_before pa "web" (Some ex2_export)) = None /\
+  (exists b i, In b (nodes ex2_before) /\ In i ex2_snap /\ n_id b = n_id (i_node i) /\ n_id b <> "") /\
+  (exists k0 i k, In k0 (chks ex2_before) /\ In i ex2_snap /\ In k (i_chks i) /\ c_node k0 = n_name (i_node i) /\ c_id k0 = c_id k).
+Proof. exact ex2_hypotheses. Qed.
+
+(* ... the premises of the same-peer theorems: another service in a slot the snapshot does not
+   send, and a node that has nothing to do with the service *)
+Example C17_same_peer_premises_satisfiable :
+  (In (mk_svc "a" "api1" "api" 9) (svcs ex2_before) /\ s_name (mk_svc "a" "api1" "api" 9) <> "web" /\
+   forall i, In i ex2_snap -> svc_key (i_svc i) <> svc_key (mk_svc "a" "api1" "api" 9)) /\
+  ((forall i, In i ex2_snap -> n_name (i_node i) <> "u") /\
+   (forall y, In y (svcs ex2_before) -> s_peer y = pa -> s_node y = "u" -> s_name y <> "web") /\
+   In (Node pa "u" "" 1) (nodes ex2_before)).
+Proof. exact ex2_same_peer_premises. Qed.
+
+(* ... an exported-service list that prunes one service and keeps another with its sidecar *)
+Example C17_list_hypotheses_satisfiable :
+  wf ex3_before /\ ids_nonempty ex3_before pa /\
+  h_err (handle_exported_list id_shuffles ex3_before pa ["web"]) = None /\
+  In "web-sidecar-proxy" (exported_set ["web"]).
+Proof. exact ex3_hypotheses. Qed.
+
 (* ... the identity order is an iteration order, and the exporting side exports something *)
 Example C17_shuffles_satisfiable : shuffles_ok id_shuffles /\ shuffles_ok rev_nodes.
 Proof. exact (conj id_shuffles_ok rev_nodes_ok). Qed.
@@ -196,10 +256,13 @@ Proof. exact ex_export_side. Qed.
 Print Assumptions C17_frame.
 Print Assumptions C17_frame_history.
 Print Assumptions C17_ops_carry_peer.
-Print Assumptions C17_keys_contain_peer.
 Print Assumptions C17_calls_determine_store.
 Print Assumptions C17_frame_topology.
 Print Assumptions C17_prune.
+Print Assumptions C17_prune_keeps.
+Print Assumptions C17_orphan_nodes_removed.
+Print Assumptions C17_unique_keys_invariant.
+Print Assumptions C17_unique_keys_history.
 Print Assumptions C17_mirror_refuted_node_id_moves.
 Print Assumptions C17_mirror_refuted_check_changes_owner.
 Print Assumptions C17_mirror_refuted_stale_node_check.
@@ -213,5 +276,8 @@ Print Assumptions C17_export_chains_only_if_named.
 Print Assumptions C17_export_exact.
 Print Assumptions C17_observed_orders_are_orders.
 Print Assumptions C17_hypotheses_satisfiable.
+Print Assumptions C17_hypotheses_satisfiable_with_ids.
+Print Assumptions C17_same_peer_premises_satisfiable.
+Print Assumptions C17_list_hypotheses_satisfiable.
 Print Assumptions C17_shuffles_satisfiable.
 Print Assumptions C17_export_nonempty.
